@@ -421,6 +421,8 @@ def paren(s):
 
 class Tr:
     def __init__(self):
+        self.binops = {}    # '+' -> 'wrapping_add' ... from the impl_bin_op! invocations
+        self.opmethods = {} # 'add' -> 'wrapping_add' ...
         self.uconsts = {}   # associated consts of Uint: name -> (type, initialiser AST), inlined at use
         self.sigs = {}      # rust name -> (gname, [param tys], ret ty, pure, mutref_idx)
         self.alias = {}
@@ -458,6 +460,8 @@ class Tr:
                     return [], "(uZERO BITS)", "uint"
                 if c == "MAX":
                     return [], "(uMAX BITS)", "uint"
+                if c == "ONE":      # const_from_u64(1): not translated; the model constant of UDiv.v
+                    return [], "(UDiv.uone BITS)", "uint"
                 if c in ("BITS", "LIMBS"):
                     # Self::LIMBS additionally asserts LIMBS == nlimbs(BITS) at compile time; the
                     # translated functions are only stated for well-formed (BITS, LIMBS)
@@ -591,6 +595,14 @@ class Tr:
         if t1 != t2:
             raise Unsupported("operand types %s %s %s" % (t1, op, t2))
         bs = b1 + b2
+        if t1 == "uint":
+            if op in ("==", "!="):          # #[derive(PartialEq)] on the limb array
+                r = "(list_eqb Z.eqb %s %s)" % (paren(a1), paren(a2))
+                return bs, r if op == "==" else "(negb %s)" % r, "bool"
+            if op in self.binops:           # impl_bin_op!(Add, add, AddAssign, add_assign, wrapping_add)
+                b3, a3, t3 = self.apply(f, "U." + self.binops[op], [("__atom", paren(a2))], env, recv=("__atom", paren(a1)))
+                return bs + b3, a3, t3
+            raise Unsupported("operator %s on Uint" % op)
         if op in ("==", "!=", "<", ">", "<=", ">="):
             if t1 == "bool":
                 r = "(Bool.eqb %s %s)" % (paren(a1), paren(a2))
@@ -710,6 +722,19 @@ class Tr:
         if fe[0] == "path" and fe[1][0] in ("u128", "Self") and len(fe[1]) == 2:
             name = "dw_" + fe[1][1]
         name = self.alias.get(name, name)
+        if name == "algorithms::div":
+            # top-level slice division: NOT translated; Model/Div.v div_kernel (tie: C14 correspondence)
+            ts = []
+            for a in args[:2]:
+                t = a
+                while t[0] in ("un", "field"):
+                    t = t[2] if t[0] == "un" else t[1]
+                if t[0] != "var":
+                    raise Unsupported("&mut slice argument")
+                ts.append(env[t[1]][0])
+            f.impure = True
+            v = f.fresh()
+            return ["do %s <- Div.div_kernel %s %s ; let '(%s, %s) := %s in" % (v, ts[0], ts[1], ts[0], ts[1], v)], "tt", ("tuple", [])
         if name in ("algorithms::addmul", "algorithms::addmul_n"):
             # limb-slice kernels: NOT translated; the hand-written model function of Model/Limbs.v is
             # called (its own tie to the code is the C15 correspondence run)
@@ -792,6 +817,7 @@ class Tr:
         if tr_ == "uint":
             if m == "as_limbs":
                 return br, ar, ("slice", "u64")
+            m = self.opmethods.get(m, m)
             if "U." + m not in self.sigs:
                 raise Unsupported("Uint method ." + m)
             if 0 in self.sigs["U." + m][4]:          # `&mut self` method: the receiver must be a variable
@@ -1174,6 +1200,14 @@ TARGETS = [
     ("src/mul.rs", UINT_IMPL, "saturating_mul", "U.saturating_mul", "g_saturating_mul", "uint"),
     ("src/mul.rs", UINT_IMPL, "wrapping_mul", "U.wrapping_mul", "g_wrapping_mul", "uint"),
     ("src/add.rs", UINT_IMPL, "overflowing_add", "U.overflowing_add", "g_overflowing_add", "uint"),
+    ("src/add.rs", UINT_IMPL, "wrapping_add", "U.wrapping_add", "g_wrapping_add", "uint"),
+    ("src/cmp.rs", "pub fn is_zero", "is_zero", "U.is_zero", "g_is_zero", "uint"),
+    ("src/div.rs", UINT_IMPL, "div_rem", "U.div_rem", "g_div_rem", "uint"),
+    ("src/div.rs", UINT_IMPL, "wrapping_div", "U.wrapping_div", "g_wrapping_div", "uint"),
+    ("src/div.rs", UINT_IMPL, "wrapping_rem", "U.wrapping_rem", "g_wrapping_rem", "uint"),
+    ("src/div.rs", UINT_IMPL, "checked_div", "U.checked_div", "g_checked_div", "uint"),
+    ("src/div.rs", UINT_IMPL, "checked_rem", "U.checked_rem", "g_checked_rem", "uint"),
+    ("src/div.rs", UINT_IMPL, "div_ceil", "U.div_ceil", "g_div_ceil", "uint"),
     ("src/add.rs", UINT_IMPL, "overflowing_sub", "U.overflowing_sub", "g_overflowing_sub", "uint"),
     ("src/add.rs", UINT_IMPL, "overflowing_neg", "U.overflowing_neg", "g_overflowing_neg", "uint"),
     ("src/add.rs", UINT_IMPL, "checked_add", "U.checked_add", "g_checked_add", "uint"),
@@ -1181,7 +1215,6 @@ TARGETS = [
     ("src/add.rs", UINT_IMPL, "checked_neg", "U.checked_neg", "g_checked_neg", "uint"),
     ("src/add.rs", UINT_IMPL, "saturating_add", "U.saturating_add", "g_saturating_add", "uint"),
     ("src/add.rs", UINT_IMPL, "saturating_sub", "U.saturating_sub", "g_saturating_sub", "uint"),
-    ("src/add.rs", UINT_IMPL, "wrapping_add", "U.wrapping_add", "g_wrapping_add", "uint"),
     ("src/add.rs", UINT_IMPL, "wrapping_sub", "U.wrapping_sub", "g_wrapping_sub", "uint"),
     ("src/add.rs", UINT_IMPL, "wrapping_neg", "U.wrapping_neg", "g_wrapping_neg", "uint"),
 ]
@@ -1207,6 +1240,16 @@ def translate(repo):
                 tr.uconsts[cn] = (m.group(1), P(tokenize(m.group(2))).expr())
     except (OSError, Unsupported):
         pass
+    SYM = {"Add": "+", "Sub": "-", "Mul": "*", "Div": "/", "Rem": "%"}
+    for rel in ("src/add.rs", "src/mul.rs", "src/div.rs"):
+        try:
+            txt = open(os.path.join(repo, rel)).read()
+        except OSError:
+            continue
+        for m in re.finditer(r"impl_bin_op!\(\s*(\w+)\s*,\s*(\w+)\s*,\s*\w+\s*,\s*\w+\s*,\s*(\w+)\s*\)", txt):
+            if m.group(1) in SYM:
+                tr.binops[SYM[m.group(1)]] = m.group(3)
+                tr.opmethods[m.group(2)] = m.group(3)
     for rel, marker, fname, cname, gname, selfty in TARGETS:
         try:
             txt = open(os.path.join(repo, rel)).read()
@@ -1222,7 +1265,7 @@ def translate(repo):
             status[gname] = "unsupported: %s" % ex
     head = ("(* GENERATED by tools_rs2v.py from the current text of /repo — do not edit.\n"
             "   One definition per translated Rust function; see Gen/Prim.v for the primitives. *)\n"
-            "From RV.Model Require Import Base Word.\nFrom RV.Model Require Limbs.\nFrom RV.Gen Require Import Prim.\n\n")
+            "From RV.Model Require Import Base Word.\nFrom RV.Model Require Limbs Div UDiv.\nFrom RV.Gen Require Import Prim.\n\n")
     return head + "\n\n".join(tr.out) + "\n", status
 
 
